@@ -4,6 +4,7 @@ import (
 	"go/ast"
 	"go/token"
 	"go/types"
+	"sort"
 )
 
 // ---------------------------------------------------------------------------------
@@ -46,8 +47,9 @@ type ttBound struct {
 }
 
 type ttState struct {
-	vars  map[types.Object]ttVal   // bool locals; error locals (true = non-nil)
-	alias map[types.Object]ttBound // other locals with one definition, parameters of inlined calls
+	vars   map[types.Object]ttVal   // bool locals; error locals (true = non-nil)
+	alias  map[types.Object]ttBound // other locals with one definition, parameters of inlined calls
+	events map[string]bool          // named calls passed on the way (ttEval.event)
 }
 
 func (s *ttState) clone() *ttState {
@@ -58,7 +60,26 @@ func (s *ttState) clone() *ttState {
 	for k, v := range s.alias {
 		n.alias[k] = v
 	}
+	if len(s.events) > 0 {
+		n.events = map[string]bool{}
+		for k := range s.events {
+			n.events[k] = true
+		}
+	}
 	return n
+}
+
+func (s *ttState) eventSuffix() string {
+	var names []string
+	for k := range s.events {
+		names = append(names, k)
+	}
+	sort.Strings(names)
+	out := ""
+	for _, n := range names {
+		out += "+" + n
+	}
+	return out
 }
 
 type ttEval struct {
@@ -74,7 +95,10 @@ type ttEval struct {
 	onceLoops bool
 	// opaque: package-local functions that are not inlined (their results are unknown and
 	// a variable defined from them is an alias of the call)
-	opaque   func(*types.Func) bool
+	opaque func(*types.Func) bool
+	// event names a statement (a call, a store) the rule wants to see in the outcome
+	// ("+name" is appended to the outcome of every path that passed it).
+	event    func(fn *FuncNode, s ast.Stmt) string
 	outcomes map[string]bool
 	steps    int
 	bad      string
@@ -459,6 +483,7 @@ func (ev *ttEval) stmt(st *ttState, fn *FuncNode, s ast.Stmt, depth int, onRetur
 		}
 		return one(st)
 	case *ast.AssignStmt:
+		ev.note(st, fn, v)
 		if len(v.Lhs) == len(v.Rhs) {
 			for i := range v.Lhs {
 				ev.assignTo(st, fn, v.Lhs[i], v.Rhs[i], v.Tok == token.DEFINE, depth)
@@ -635,6 +660,9 @@ func (ev *ttEval) stmt(st *ttState, fn *FuncNode, s ast.Stmt, depth int, onRetur
 			out = append(out, res{r.st, ttNext}) // break / continue / end of body: go on after the loop
 		}
 		return out
+	case *ast.ExprStmt:
+		ev.note(st, fn, v)
+		return one(st)
 	case *ast.BranchStmt:
 		if v.Tok == token.BREAK || v.Tok == token.CONTINUE {
 			return []res{{st, ttBreak}}
@@ -662,15 +690,35 @@ func (ev *ttEval) stmt(st *ttState, fn *FuncNode, s ast.Stmt, depth int, onRetur
 	return one(st)
 }
 
+func (ev *ttEval) note(st *ttState, fn *FuncNode, s ast.Stmt) {
+	if ev.event == nil {
+		return
+	}
+	if name := ev.event(fn, s); name != "" {
+		if st.events == nil {
+			st.events = map[string]bool{}
+		}
+		st.events[name] = true
+	}
+}
+
 // ttTable interprets fn under every assignment of the named atoms and returns, for each
 // assignment (encoded as a bit mask over atoms), the set of outcomes.
 func ttTable(p *Prog, fn *FuncNode, atoms []string,
 	atom func(ev *ttEval, st *ttState, fn *FuncNode, e ast.Expr) (string, bool, bool),
 	outcome func(fn *FuncNode, ret *ast.ReturnStmt, results []ttVal) string,
 	onceLoops bool, opaque ...func(*types.Func) bool) (map[int]map[string]bool, string) {
+	return ttTableEv(p, fn, atoms, atom, outcome, onceLoops, nil, opaque...)
+}
+
+// ttTableEv is ttTable with an event classifier (see ttEval.event).
+func ttTableEv(p *Prog, fn *FuncNode, atoms []string,
+	atom func(ev *ttEval, st *ttState, fn *FuncNode, e ast.Expr) (string, bool, bool),
+	outcome func(fn *FuncNode, ret *ast.ReturnStmt, results []ttVal) string,
+	onceLoops bool, event func(fn *FuncNode, s ast.Stmt) string, opaque ...func(*types.Func) bool) (map[int]map[string]bool, string) {
 	table := map[int]map[string]bool{}
 	for mask := 0; mask < 1<<len(atoms); mask++ {
-		ev := &ttEval{p: p, atom: atom, outcome: outcome, onceLoops: onceLoops, assign: map[string]bool{}, outcomes: map[string]bool{}}
+		ev := &ttEval{p: p, atom: atom, outcome: outcome, onceLoops: onceLoops, event: event, assign: map[string]bool{}, outcomes: map[string]bool{}}
 		if len(opaque) > 0 {
 			ev.opaque = opaque[0]
 		}
@@ -679,10 +727,10 @@ func ttTable(p *Prog, fn *FuncNode, atoms []string,
 		}
 		st := &ttState{vars: map[types.Object]ttVal{}, alias: map[types.Object]ttBound{}}
 		falls := ev.block(st, fn, fn.Body.List, 0, func(ret *ast.ReturnStmt, s2 *ttState) {
-			ev.outcomes[outcome(fn, ret, ev.results(s2, fn, ret, 0))] = true
+			ev.outcomes[outcome(fn, ret, ev.results(s2, fn, ret, 0))+s2.eventSuffix()] = true
 		})
 		for _, f := range falls {
-			ev.outcomes[outcome(fn, nil, ev.results(f.st, fn, nil, 0))] = true
+			ev.outcomes[outcome(fn, nil, ev.results(f.st, fn, nil, 0))+f.st.eventSuffix()] = true
 		}
 		if ev.bad != "" {
 			return nil, ev.bad
